@@ -1,23 +1,72 @@
-(* C03: in the configuration of the real system (inference thread 0, training thread 1) a background thread
-   whose callback raised anywhere but in its teardown sets its exception flag before it ends - on EVERY trace
-   accepted by the thread model M6.  (The position of the owning thread determines which callback can be in
-   progress - the relation R9 of ThreadsProto.v - so a raise outside the teardown phase leads to the position
-   "about to set the exception flag", from which nothing else is possible.) *)
+(* C03: a background thread whose callback raised anywhere but in its teardown sets its exception flag before
+   it ends - on EVERY trace accepted by the thread model M6, for any number of background threads of any kinds.
+   (The phase a thread is in determines which callbacks can be in progress - [Coh] - so a raise outside the
+   teardown phase leads to the position "about to set the exception flag", from which nothing else is
+   possible.) *)
 From Coq Require Import List Bool Arith Lia.
-From Pamiq Require Import Model.Threads Check.Sys Proofs.ThreadsInv Proofs.ThreadsInv2 Proofs.ThreadsProto.
+From Pamiq Require Import Model.Threads Check.Sys Proofs.ThreadsInv Proofs.ThreadsProto.
 Import ListNotations.
 
 Section Flag.
+Variable n : nat.
+Variable kind : nat -> bkind.
 Variable max_attempts : nat.
 Variable qmax : nat.
 Variable with_web : bool.
 
-Notation step := (step 2 kind2 max_attempts qmax with_web).
-Notation run := (run 2 kind2 max_attempts qmax with_web).
-Notation bg_step := (bg_step kind2).
-Notation Inv := (Inv 2).
+Notation step := (step n kind max_attempts qmax with_web).
+Notation run := (run n kind max_attempts qmax with_web).
+Notation bg_step := (bg_step kind).
+Notation ctl_step := (ctl_step n kind max_attempts with_web).
+Notation Inv := (Inv n).
 
+(* the callbacks of a phase: teardown callbacks in the teardown phase, and only there *)
+Definition is_td_phase (ph : phase) : bool := match ph with PTeardown => true | _ => false end.
+Definition coh_cb (ph : phase) (c : cbn) : bool := Bool.eqb (is_teardown_cb c) (is_td_phase ph).
+Definition coh_pc (p : bpc) : bool :=
+  match p with
+  | BRun ph r inside => forallb (coh_cb ph) r && match inside with Some c => coh_cb ph c | None => true end
+  | _ => true
+  end.
+Definition Coh (s : st) : Prop := forall i, coh_pc (bp s i) = true.
 Definition Owed (s : st) (owed : nat -> bool) : Prop := forall i, owed i = true -> bp s i = BSetExc.
+
+Lemma cbs_coh k ph : forallb (coh_cb ph) (cbs_of k ph) = true.
+Proof. destruct k, ph; reflexivity. Qed.
+
+Lemma enter_coh i ph : coh_pc (enter kind i ph) = true.
+Proof.
+  unfold enter. pose proof (cbs_coh (kind i) ph) as H. destruct (cbs_of (kind i) ph) eqn:E; [destruct ph; reflexivity|].
+  cbn [coh_pc]. rewrite H. reflexivity.
+Qed.
+
+Lemma after_phase_coh ph : coh_pc (after_phase ph) = true.
+Proof. destruct ph; reflexivity. Qed.
+
+Lemma cbn_eqb_eq a b : cbn_eqb a b = true -> a = b.
+Proof. destruct a, b; simpl; congruence. Qed.
+
+Lemma same_pos_coh p p' : same_pos p p' -> coh_pc p = true -> coh_pc p' = true.
+Proof. intros [->|(nt & -> & ->)]; auto. Qed.
+
+Lemma same_pos_setexc p p' : same_pos p p' -> p = BSetExc -> p' = BSetExc.
+Proof. intros [->|(nt & -> & _)]; [auto|discriminate]. Qed.
+
+(* a step of thread i keeps its own position coherent *)
+Lemma bg_coh s i l s' : bg_step s i l = Some s' -> coh_pc (bp s i) = true -> coh_pc (bp s' i) = true.
+Proof.
+  intros H Hc. unfold Threads.bg_step in H.
+  destruct (bp s i) as [|ph rest inside| | | | | | | | | | | | | | |] eqn:Hp; destruct l; try discriminate H;
+    repeat match type of H with
+           | context [match ?x with _ => _ end] => is_var x; destruct x; cbn in H; try discriminate H
+           | context [if ?x then _ else _] => destruct x eqn:?; cbn in H; try discriminate H
+           end;
+    inversion H; subst; clear H;
+    unfold fault, set_bp, set_pf, set_ex; cbn [bp]; rewrite ?upd_same; rewrite ?Hp;
+    try apply enter_coh; try apply after_phase_coh; try reflexivity; try assumption.
+  all: try (destruct ph; cbn [bp]; rewrite upd_same; reflexivity).
+  all: cbn [coh_pc forallb] in *; rewrite ?andb_true_iff in *; intuition.
+Qed.
 
 (* from "about to set the exception flag" a thread can only set its flag *)
 Lemma setexc_only s i l s' : bp s i = BSetExc -> bg_step s i l = Some s' -> exists j, l = LSet (EExc j).
@@ -26,90 +75,103 @@ Proof.
 Qed.
 
 (* a raise: into the teardown's exit position exactly when a teardown callback raised *)
-Lemma raise0 s c s' a e b : bg_step s 0 (LCbRaise c) = Some s' -> rel0 (bp s 0) a e b = true ->
-  bp s' 0 = if is_teardown_cb c then BExit else BSetExc.
+Lemma raise_pos s i c s' : bg_step s i (LCbRaise c) = Some s' -> coh_pc (bp s i) = true ->
+  bp s' i = if is_teardown_cb c then BExit else BSetExc.
 Proof.
-  intros H Hr. unfold Threads.bg_step in H.
-  destruct (bp s 0) eqn:Hp; try discriminate H. destruct inside as [c0|]; [|destruct rest; cbn in H; discriminate H].
+  intros H Hc. unfold Threads.bg_step in H.
+  destruct (bp s i) as [|ph rest inside| | | | | | | | | | | | | | |] eqn:Hp; try discriminate H.
+  destruct inside as [c0|]; [|destruct rest; cbn in H; discriminate H].
   destruct (cbn_eqb c0 c) eqn:Ec; [|destruct rest; discriminate H].
-  assert (Hs : s' = fault s 0 ph) by (destruct rest; inversion H; reflexivity). subst s'. clear H.
-  unfold rel0 in Hr. cbn in Hr.
-  repeat match type of Hr with
-         | context [match ?x with _ => _ end] => is_var x; destruct x; cbn in Hr; try discriminate Hr
-         end;
-    destruct c; try discriminate Ec; unfold fault, set_bp; cbn [bp is_teardown_cb]; rewrite upd_same; reflexivity.
+  assert (Hs : s' = fault s i ph) by (destruct rest; inversion H; reflexivity). subst s'. clear H.
+  apply cbn_eqb_eq in Ec. subst c0.
+  cbn [coh_pc] in Hc. apply andb_true_iff in Hc as [_ Hc]. unfold coh_cb in Hc. apply eqb_prop in Hc. rewrite Hc.
+  destruct ph; unfold fault, set_bp; cbn [bp is_td_phase]; rewrite upd_same; reflexivity.
 Qed.
 
-Lemma raise1 s c s' t b : bg_step s 1 (LCbRaise c) = Some s' -> rel1 (bp s 1) t b = true ->
-  bp s' 1 = if is_teardown_cb c then BExit else BSetExc.
+(* the control thread touches the positions of the background threads only by starting them (from "not
+   started") and by notifying a waiter *)
+Lemma ctl_bp s l s' : Inv s -> ctl_step s l = Some s' ->
+  forall j, same_pos (bp s j) (bp s' j) \/ (bp s j = BNotStarted /\ bp s' j = enter kind j PSetup).
 Proof.
-  intros H Hr. unfold Threads.bg_step in H.
-  destruct (bp s 1) eqn:Hp; try discriminate H. destruct inside as [c0|]; [|destruct rest; cbn in H; discriminate H].
-  destruct (cbn_eqb c0 c) eqn:Ec; [|destruct rest; discriminate H].
-  assert (Hs : s' = fault s 1 ph) by (destruct rest; inversion H; reflexivity). subst s'. clear H.
-  unfold rel1 in Hr. cbn in Hr.
-  repeat match type of Hr with
-         | context [match ?x with _ => _ end] => is_var x; destruct x; cbn in Hr; try discriminate Hr
-         end;
-    destruct c; try discriminate Ec; unfold fault, set_bp; cbn [bp is_teardown_cb]; rewrite upd_same; reflexivity.
+  intros HI H. destruct HI as (_ & _ & _ & _ & _ & C). unfold CI in C.
+  unfold Threads.ctl_step in H.
+  destruct (cp s) eqn:Hc; destruct l; try discriminate;
+    repeat match type of H with
+           | context [match ?x with _ => _ end] => destruct x eqn:?; try discriminate
+           end;
+    inversion H; subst; clear H; intros jj;
+    unfold exc_goto, ctl, set_cp, set_res, set_misc, set_pp, set_bp; cbn [bp];
+    try (left; left; reflexivity); try (left; apply notify_same).
+  all: destruct C as (_ & _ & NS); unfold upd; destruct (Nat.eqb_spec jj k);
+    [subst; right; split; [apply NS; lia|reflexivity]|left; left; reflexivity].
 Qed.
 
-Lemma same_pos_setexc p p' : same_pos p p' -> p = BSetExc -> p' = BSetExc.
-Proof. intros [->|(nt & -> & _)]; [auto|discriminate]. Qed.
+Lemma other_bp s t l s' : step s t l = Some s' -> (forall i, t <> TBg i) -> t <> TCtl -> bp s' = bp s.
+Proof.
+  intros H N1 N2. unfold Threads.step in H. destruct t as [|i|j| |]; try congruence; try (exfalso; eapply N1; reflexivity).
+  - destruct (j <? n); [|discriminate]. unfold pool_step in H.
+    destruct (pp s j); destruct l; try discriminate;
+      repeat match type of H with context [match ?x with _ => _ end] => destruct x eqn:?; try discriminate end;
+      inversion H; subst; reflexivity.
+  - unfold client_step in H. destruct (client_done s); [discriminate|].
+    destruct l; try discriminate;
+      repeat match type of H with context [if ?x then _ else _] => destruct x eqn:?; try discriminate end;
+      inversion H; subst; reflexivity.
+  - unfold web_step in H. destruct (web s) as [|[|w]]; try discriminate. destruct l; try discriminate.
+    destruct raised; [discriminate|]. inversion H; subst; reflexivity.
+Qed.
 
-Lemma flagged_exit_from : forall tr s s' m owed, Inv s -> R9 s m -> Owed s owed -> run s tr = Some s' ->
+Lemma flagged_exit_from : forall tr s s' owed, Inv s -> Coh s -> Owed s owed -> run s tr = Some s' ->
   flagged_before_exit owed tr = true.
 Proof.
-  induction tr as [|[t l] tr IH]; intros s s' m owed HI HR HO H; [reflexivity|].
+  induction tr as [|[t l] tr IH]; intros s s' owed HI HC HO H; [reflexivity|].
   cbn [Threads.run] in H. destruct (step s t l) as [s1|] eqn:E; [|discriminate].
   pose proof (inv_step _ _ _ _ _ _ _ _ _ HI E) as HI1.
-  destruct (sim_step _ _ _ _ _ _ _ _ HI HR E) as (m1 & _ & HR1 & _).
-  assert (Keep : (forall j, same_pos (bp s j) (bp s1 j) \/ (bp s j = BNotStarted /\ bp s1 j = enter kind2 j PSetup)) -> Owed s1 owed).
-  { intros Hbp i Hi. specialize (HO i Hi). destruct (Hbp i) as [S|(N & _)]; [eapply same_pos_setexc; eassumption|congruence]. }
   destruct t as [|i|j| |].
   - (* control thread *)
-    unfold Threads.step in E. destruct (ctl_sim _ _ _ _ _ HI E) as (_ & Hbp).
-    assert (G : flagged_before_exit owed tr = true) by (apply (IH s1 s' m1 owed HI1 HR1 (Keep Hbp) H)).
-    cbn [flagged_before_exit]. exact G.
+    unfold Threads.step in E. pose proof (ctl_bp _ _ _ HI E) as Hbp.
+    cbn [flagged_before_exit]. apply (IH s1 s' owed HI1); [| |exact H].
+    + intros i. destruct (Hbp i) as [S|(_ & ->)]; [eapply same_pos_coh; [exact S|apply HC]|apply enter_coh].
+    + intros i Hi. specialize (HO i Hi). destruct (Hbp i) as [S|(N & _)]; [eapply same_pos_setexc; eassumption|congruence].
   - (* background thread i *)
-    unfold Threads.step in E. destruct (i <? 2) eqn:Hi; [|discriminate]. apply Nat.ltb_lt in Hi.
-    destruct (bg_frame kind2 _ _ _ _ E) as (_ & _ & _ & _ & _ & _ & Fr).
+    unfold Threads.step in E. destruct (i <? n) eqn:Hi; [|discriminate].
+    destruct (bg_frame kind _ _ _ _ E) as (_ & _ & _ & _ & _ & _ & Fr).
+    assert (HC1 : Coh s1).
+    { intros k. destruct (Nat.eq_dec k i) as [->|Nk]; [eapply bg_coh; [exact E|apply HC]|]. destruct (Fr k Nk) as (-> & _). apply HC. }
     destruct (owed i) eqn:Oi.
     + (* it owes the flag: the step sets it *)
       destruct (setexc_only _ _ _ _ (HO i Oi) E) as (j & ->). cbn [flagged_before_exit].
-      apply (IH s1 s' m1 (upd owed i false) HI1 HR1); [|exact H].
+      apply (IH s1 s' (upd owed i false) HI1 HC1); [|exact H].
       intros k Hk. unfold upd in Hk. destruct (Nat.eqb_spec k i) as [Ek|Nk]; [discriminate Hk|].
       destruct (Fr k Nk) as (-> & _). apply HO; exact Hk.
     + assert (Others : forall o', (forall k, k <> i -> o' k = owed k) -> (o' i = true -> bp s1 i = BSetExc) -> Owed s1 o').
       { intros o' Ho Hi' k Hk. destruct (Nat.eq_dec k i) as [->|Nk]; [now apply Hi'|].
         destruct (Fr k Nk) as (-> & _). apply HO. rewrite <- Ho by exact Nk. exact Hk. }
       destruct l; cbn [flagged_before_exit]; rewrite ?Oi; cbn [negb andb];
-        try (apply (IH s1 s' m1 owed HI1 HR1); [|exact H]; apply Others; [reflexivity|congruence]).
+        try (apply (IH s1 s' owed HI1 HC1); [|exact H]; apply Others; [reflexivity|congruence]).
       * (* LSet *)
-        destruct e; try (apply (IH s1 s' m1 owed HI1 HR1); [|exact H]; apply Others; [reflexivity|congruence]).
-        apply (IH s1 s' m1 (upd owed i false) HI1 HR1); [|exact H]. apply Others.
+        destruct e; try (apply (IH s1 s' owed HI1 HC1); [|exact H]; apply Others; [reflexivity|congruence]).
+        apply (IH s1 s' (upd owed i false) HI1 HC1); [|exact H]. apply Others.
         -- intros k Nk. unfold upd. destruct (Nat.eqb_spec k i); [contradiction|reflexivity].
         -- unfold upd. rewrite Nat.eqb_refl. discriminate.
       * (* LCbRaise *)
-        destruct HR as [R0 R1].
-        assert (Hb : bp s1 i = if is_teardown_cb c then BExit else BSetExc).
-        { destruct i as [|[|i]]; [eapply raise0; eassumption|eapply raise1; eassumption|lia]. }
+        pose proof (raise_pos _ _ _ _ E (HC i)) as Hb.
         destruct (is_teardown_cb c).
-        -- apply (IH s1 s' m1 owed HI1 HR1); [|exact H]. apply Others; [reflexivity|congruence].
-        -- apply (IH s1 s' m1 (upd owed i true) HI1 HR1); [|exact H]. apply Others.
+        -- apply (IH s1 s' owed HI1 HC1); [|exact H]. apply Others; [reflexivity|congruence].
+        -- apply (IH s1 s' (upd owed i true) HI1 HC1); [|exact H]. apply Others.
            ++ intros k Nk. unfold upd. destruct (Nat.eqb_spec k i); [contradiction|reflexivity].
            ++ intros _. exact Hb.
-  - destruct (other_sim _ _ _ _ _ _ _ E) as (_ & Hbp); try discriminate.
-    cbn [flagged_before_exit]. apply (IH s1 s' m1 owed HI1 HR1); [|exact H]. intros i Hi. rewrite Hbp. now apply HO.
-  - destruct (other_sim _ _ _ _ _ _ _ E) as (_ & Hbp); try discriminate.
-    cbn [flagged_before_exit]. apply (IH s1 s' m1 owed HI1 HR1); [|exact H]. intros i Hi. rewrite Hbp. now apply HO.
-  - destruct (other_sim _ _ _ _ _ _ _ E) as (_ & Hbp); try discriminate.
-    cbn [flagged_before_exit]. apply (IH s1 s' m1 owed HI1 HR1); [|exact H]. intros i Hi. rewrite Hbp. now apply HO.
+  - assert (Hbp : bp s1 = bp s) by (apply (other_bp _ _ _ _ E); discriminate). cbn [flagged_before_exit].
+    apply (IH s1 s' owed HI1); [intros i; rewrite Hbp; apply HC|intros i Hi; rewrite Hbp; now apply HO|exact H].
+  - assert (Hbp : bp s1 = bp s) by (apply (other_bp _ _ _ _ E); discriminate). cbn [flagged_before_exit].
+    apply (IH s1 s' owed HI1); [intros i; rewrite Hbp; apply HC|intros i Hi; rewrite Hbp; now apply HO|exact H].
+  - assert (Hbp : bp s1 = bp s) by (apply (other_bp _ _ _ _ E); discriminate). cbn [flagged_before_exit].
+    apply (IH s1 s' owed HI1); [intros i; rewrite Hbp; apply HC|intros i Hi; rewrite Hbp; now apply HO|exact H].
 Qed.
 
 Theorem C03_failure_is_flagged tr s : run init tr = Some s -> C03_flagged tr = true.
 Proof.
-  intros H. apply (flagged_exit_from tr init s m0 (fun _ => false) (inv_init 2) R9_init); [intros i Hi; discriminate|exact H].
+  intros H. apply (flagged_exit_from tr init s (fun _ => false) (inv_init n)); [intros i; reflexivity|intros i Hi; discriminate|exact H].
 Qed.
 
 End Flag.
